@@ -14,6 +14,14 @@ def chk(pid, text, note, design, technique='deductive verification: ast->VC gene
     }
 
 CHECKS = [
+    chk("C08", "The real C functions of giroffsets.c (clang JSON AST, translated mechanically) are proved against the System V ABI "
+        "layout rule written as folds over the member list: struct offsets/size/alignment, union size/alignment, unknown member "
+        "=> unknown layout (-1), GI_ALIGN on powers of two, enum storage type against the GCC rule, one-member size/alignment.",
+        "Trusted: givc and its C front end (cfront.py), stub GLib headers (cstubs/), mathematical integers (no overflow), casts "
+        "follow node type tags, &p->f by copy-in/copy-out, libffi descriptor table; get_interface_size_alignment and the "
+        "recursion driver by assumed contract. One known finding (enum values beyond 32 bits), replayed natively with gcc.",
+        "DESIGN.md section 4 C08",
+        technique="deductive verification: clang-AST -> VC generator (givc C front end) on the real C functions + z3"),
     chk("C12", "Contracts on the real GDumpParser functions: every reported property becomes one Property whose readable/writable/"
         "construct/construct-only flags equal the reported flag bits (for every flag word), with the reported name and default; "
         "class/interface structures are linked to their type in both directions; instance structures give ctype and read-only "
